@@ -290,3 +290,111 @@ func b2i(b bool) int {
 	}
 	return 0
 }
+
+// DynExtra enumerates smaller families around $dynamicRef that the chain product does
+// not contain: a static $ref naming a dynamic anchor, two different dynamic names in
+// scope, anchors on resource roots with the recursive "tree" pattern, resources nested
+// inside embedded resources, and documents whose retrieval URI differs from their $id.
+func DynExtra(yield func(u *Universe)) {
+	// A/B: chains of k resources joined by plain $ref, anchor kinds over four values, final in several forms
+	kinds4 := []string{`"$dynamicAnchor":"n",`, `"$anchor":"n",`, ``, `"$dynamicAnchor":"k",`}
+	for k := 2; k <= 3; k++ {
+		total := 1
+		for i := 0; i < k; i++ {
+			total *= 4
+		}
+		for kv := 0; kv < total; kv++ {
+			kind := make([]int, k)
+			x := kv
+			for i := range kind {
+				kind[i] = x % 4
+				x /= 4
+			}
+			finals := []string{`"$dynamicRef":"#n"`, `"$dynamicRef":"#k"`, `"$ref":"#n"`, `"$ref":"#k"`, `"$ref":"r0.json#n"`, `"$dynamicRef":"r0.json#k"`, `"allOf":[{"$ref":"#n"},{"$dynamicRef":"#n"}]`}
+			for _, fin := range finals {
+				for placement := 0; placement < 2; placement++ {
+					res := make([]string, k)
+					for i := 0; i < k; i++ {
+						next := fin
+						if i < k-1 {
+							next = fmt.Sprintf(`"$ref":"r%d.json"`, i+1)
+						}
+						// a second marker under the other name, so that a scan that ignores the name picks it
+						other := fmt.Sprintf(`,"o":{"$dynamicAnchor":"z","const":%d}`, 50+i)
+						res[i] = fmt.Sprintf(`"$id":"http://h/r%d.json",%s,"$defs":{"m":{%s"const":%d}%s`, i, next, kinds4[kind[i]], 10+i, other)
+					}
+					docs := map[string]string{}
+					var embedded []string
+					for i := 1; i < k; i++ {
+						doc := "{" + res[i] + "}}"
+						if placement == 1 {
+							docs[fmt.Sprintf("http://h/r%d.json", i)] = doc
+						} else {
+							embedded = append(embedded, fmt.Sprintf(`"e%d":%s`, i, doc))
+						}
+					}
+					root := "{" + res[0]
+					if len(embedded) > 0 {
+						root += "," + strings.Join(embedded, ",")
+					}
+					root += "}}"
+					u := &Universe{Root: root, Base: "http://h/r0.json", Docs: docs, Kind: fmt.Sprintf("names k=%d", k)}
+					for i := 0; i < k; i++ {
+						u.Insts = append(u.Insts, fmt.Sprint(10+i), fmt.Sprint(50+i))
+					}
+					u.Insts = append(u.Insts, "99")
+					yield(u)
+				}
+			}
+		}
+	}
+	// C: anchors on resource roots; the extensible-tree pattern, every anchor-kind assignment
+	treeInsts := []string{`{"v":1}`, `{"kids":[]}`, `{"v":1,"kids":[{"v":2}]}`, `{"v":1,"kids":[{"kids":[]}]}`, `{"v":1,"kids":[{"v":1,"kids":[{"v":"x"}]}]}`, `{"v":1,"kids":[{"v":1,"kids":[{"kids":[{"v":1}]}]}]}`, `1`, `{"v":1,"kids":[1]}`, `{"v":1,"extra":1}`, `{"v":1,"kids":[{"v":1,"extra":1}]}`}
+	rootKinds := []string{`"$dynamicAnchor":"n",`, `"$anchor":"n",`, ``}
+	for ks := 0; ks < 3; ks++ {
+		for kt := 0; kt < 3; kt++ {
+			for _, fin := range []string{"#n", "tree.json#n", "#"} {
+				if (kt == 2 && fin != "#") || (fin == "#n" && kt == 2) {
+					continue
+				}
+				for _, strictExtra := range []string{`"required":["v"]`, `"required":["v"],"unevaluatedProperties":false`, `"properties":{"v":{"maximum":1}}`} {
+					for placement := 0; placement < 2; placement++ {
+						tree := `{"$id":"http://h/tree.json",` + rootKinds[kt] + `"type":"object","properties":{"v":{"type":"integer"},"kids":{"type":"array","items":{"$dynamicRef":"` + fin + `"}}}}`
+						strict := `"$id":"http://h/strict.json",` + rootKinds[ks] + `"$ref":"tree.json",` + strictExtra
+						u := &Universe{Base: "http://h/strict.json", Docs: map[string]string{}, Kind: "tree", Insts: treeInsts}
+						if placement == 0 {
+							u.Root = `{` + strict + `,"$defs":{"t":` + tree + `}}`
+						} else {
+							u.Root = `{` + strict + `}`
+							u.Docs["http://h/tree.json"] = tree
+						}
+						yield(u)
+					}
+				}
+			}
+		}
+	}
+	// D: a resource nested inside an embedded resource, anchors at each level
+	for kv := 0; kv < 27; kv++ {
+		k0, k1, k2 := kv%3, kv/3%3, kv/9%3
+		for _, fin := range []string{"#n", "in.json#n", "mid.json#n"} {
+			for _, entry := range []string{`"$ref":"mid.json"`, `"$ref":"in.json"`, `"allOf":[{"$ref":"mid.json"}]`} {
+				inner := `{"$id":"http://h/in.json","$dynamicRef":"` + fin + `","$defs":{"m":{` + anchorKinds[k2] + `"const":12}}}`
+				mid := `{"$id":"http://h/mid.json","$ref":"in.json","$defs":{"m":{` + anchorKinds[k1] + `"const":11},"in":` + inner + `}}`
+				root := `{"$id":"http://h/r0.json",` + entry + `,"$defs":{"m":{` + anchorKinds[k0] + `"const":10},"mid":` + mid + `}}`
+				yield(&Universe{Root: root, Base: "http://h/r0.json", Docs: map[string]string{}, Kind: "nested", Insts: []string{"10", "11", "12", "99"}})
+			}
+		}
+	}
+	// E: retrieval URI differs from $id / no $id at all in a loaded document
+	for kv := 0; kv < 9; kv++ {
+		k0, k1 := kv%3, kv/3
+		for _, id := range []string{`"$id":"http://k/o.json",`, ``, `"$id":"sub/o.json",`} {
+			for _, fin := range []string{"#n", "p.json#n", "#/$defs/m"} {
+				doc := `{` + id + `"$ref":"p.json","$defs":{"m":{` + anchorKinds[k1] + `"const":11},"p":{"$id":"p.json","$dynamicRef":"` + fin + `","$defs":{"m":{"$dynamicAnchor":"n","const":12}}}}}`
+				root := `{"$id":"http://h/r0.json","$ref":"r1.json","$defs":{"m":{` + anchorKinds[k0] + `"const":10}}}`
+				yield(&Universe{Root: root, Base: "http://h/r0.json", Docs: map[string]string{"http://h/r1.json": doc}, Kind: "retrieval", Insts: []string{"10", "11", "12", "99"}})
+			}
+		}
+	}
+}
